@@ -646,6 +646,170 @@ fn c02_int_to_enum() {
 	check_varint_cell(r, if u < 2 { Some(spec_enc_long(u as i64)) } else { None });
 }
 
+// ---- decimal values (rust_decimal::Decimal presentation, i.e. what the str / f64 paths end in)
+
+fn ser_decimal(node: &'static SchemaNode<'static>, d: rust_decimal::Decimal) -> Result<Vec<u8>, SerError> {
+	let dec = match node {
+		SchemaNode::Decimal(dec) => dec,
+		_ => unreachable!(),
+	};
+	let mut config = ManuallyDrop::new(SerializerConfig::new_with_optional_schema(None));
+	let mut state = ManuallyDrop::new(SerializerState::from_writer(Vec::new(), &mut config));
+	match decimal::serialize(&mut state, decimal::DecimalMode::Regular(dec), d) {
+		Ok(()) => Ok(ManuallyDrop::into_inner(state).into_writer()),
+		Err(e) => Err(e),
+	}
+}
+/// any rust_decimal value of the node's scale: sign x 96-bit mantissa (the documented limit)
+fn any_decimal(scale: u32) -> (rust_decimal::Decimal, i128) {
+	let lo: u32 = kani::any();
+	let mid: u32 = kani::any();
+	let hi: u32 = kani::any();
+	let neg: bool = kani::any();
+	let mag: i128 = (lo as i128) | ((mid as i128) << 32) | ((hi as i128) << 64);
+	(rust_decimal::Decimal::from_parts(lo, mid, hi, neg, scale), if neg { -mag } else { mag })
+}
+
+//@ harness: c02_decimal_value_to_bytes
+//@   props: C02, C01
+//@   tier: quick
+//@   kind: complete
+//@   fn: ser::serializer::decimal::serialize (DecimalMode::Regular over bytes) incl. its nested can_truncate_without_altering_number; rust_decimal::Decimal::{from_parts, rescale (same scale), mantissa} as linked
+//@   domain: every sign x every 96-bit mantissa (2^97 values) at the node's scale (2)
+//@   post: Ok; output == spec long(L) ++ payload with 1 <= L <= 13, payload = big-endian two's complement whose value is exactly the mantissa, and MINIMAL (no redundant leading 0x00 / 0xFF byte)
+#[kani::proof]
+#[kani::unwind(19)]
+#[kani::stub(alloc::fmt::format, stub_format)]
+fn c02_decimal_value_to_bytes() {
+	let (d, mantissa) = any_decimal(2);
+	let r = ser_decimal(&DEC_BYTES_S2, d);
+	kani::cover!(mantissa == 128, "COV 128 needs two bytes");
+	kani::cover!(mantissa == -129, "COV -129 needs two bytes");
+	match &r {
+		Ok(o) => {
+			assert!(o.len() >= 2 && o[0] == (2 * (o.len() - 1)) as u8 && o.len() - 1 <= 13, "OBL C02.decimal_value.prefix_is_payload_length");
+			let p = &o[1..];
+			assert!(spec_twos_complement(p) == mantissa, "OBL C02.decimal_value.payload_decodes_to_the_mantissa");
+			assert!(
+				p.len() == 1 || !((p[0] == 0x00 && p[1] < 0x80) || (p[0] == 0xFF && p[1] >= 0x80)),
+				"OBL C02.decimal_value.payload_is_minimal_twos_complement"
+			);
+		}
+		Err(_) => assert!(false, "OBL C01.decimal_value.every_96_bit_mantissa_must_serialize"),
+	}
+	std::mem::forget(r);
+}
+
+//@ harness: c02_big_decimal_value
+//@   props: C02, C01
+//@   tier: quick
+//@   kind: complete
+//@   fn: ser::serializer::decimal::serialize (DecimalMode::Big: the `big-decimal` logical type)
+//@   domain: every sign x every 96-bit mantissa x every scale 0..=28
+//@   post: Ok; output == spec long(T) ++ [ spec long(L) ++ minimal two's-complement mantissa (L bytes) ++ spec long(scale) ] where T is the length of the bracketed part (the value is a `bytes` whose content is length-prefixed mantissa + scale)
+#[kani::proof]
+#[kani::unwind(19)]
+#[kani::stub(alloc::fmt::format, stub_format)]
+fn c02_big_decimal_value() {
+	let scale: u32 = kani::any();
+	kani::assume(scale <= 28);
+	let (d, mantissa) = any_decimal(scale);
+	let mut config = ManuallyDrop::new(SerializerConfig::new_with_optional_schema(None));
+	let mut state = ManuallyDrop::new(SerializerState::from_writer(Vec::new(), &mut config));
+	let r = decimal::serialize(&mut state, decimal::DecimalMode::Big, d);
+	assert!(r.is_ok(), "OBL C01.big_decimal.every_value_must_serialize");
+	let o = &state.writer;
+	// all three varints are one byte here: T <= 1 + 13 + 1, L <= 13, scale <= 28
+	assert!(o.len() >= 4 && o[0] == (2 * (o.len() - 1)) as u8, "OBL C02.big_decimal.outer_length_prefix_covers_the_rest");
+	let l = (o[1] / 2) as usize;
+	assert!(o[1] % 2 == 0 && l >= 1 && o.len() == 1 + 1 + l + 1, "OBL C02.big_decimal.inner_length_prefix_then_mantissa_then_scale");
+	let p = &o[2..2 + l];
+	assert!(spec_twos_complement(p) == mantissa, "OBL C02.big_decimal.mantissa_is_twos_complement_big_endian");
+	assert!(l == 1 || !((p[0] == 0x00 && p[1] < 0x80) || (p[0] == 0xFF && p[1] >= 0x80)), "OBL C02.big_decimal.mantissa_is_minimal");
+	assert!(o[2 + l] == (2 * scale) as u8, "OBL C02.big_decimal.scale_follows_as_spec_long");
+	std::mem::forget(r);
+}
+
+macro_rules! decimal_value_to_fixed {
+	($name:ident, $size:expr) => {
+		#[kani::proof]
+		#[kani::unwind(21)]
+		#[kani::stub(alloc::fmt::format, stub_format)]
+		fn $name() {
+			static NODE: SchemaNode<'static> = decimal_fixed_node($size, 0);
+			let (d, mantissa) = any_decimal(0);
+			let r = ser_decimal(&NODE, d);
+			if $size <= 16 {
+				check_decimal_fixed(&r, mantissa, $size);
+			} else {
+				match &r {
+					Ok(o) => {
+						let pad: u8 = if mantissa < 0 { 0xFF } else { 0x00 };
+						let extra = $size - 16;
+						let mut all_pad = true;
+						let mut i = 0;
+						while i < extra {
+							if o[i] != pad {
+								all_pad = false;
+							}
+							i += 1;
+						}
+						assert!(o.len() == $size && all_pad && spec_twos_complement(&o[extra..]) == mantissa,
+							"OBL C02.decimal_value.fixed_larger_than_16_is_sign_padded");
+					}
+					Err(_) => assert!(false, "OBL C01.decimal_value.fixed_larger_than_16_always_fits"),
+				}
+			}
+			std::mem::forget(r);
+		}
+	};
+}
+
+//@ harness: c02_decimal_value_to_fixed_1
+//@   props: C02, C01
+//@   tier: quick
+//@   kind: complete
+//@   fn: ser::serializer::decimal::serialize (DecimalMode::Regular over fixed(1)) incl. can_truncate_without_altering_number
+//@   domain: every sign x every 96-bit mantissa at scale 0
+//@   post: Ok iff -128 <= mantissa <= 127, then that single byte; otherwise Err (never truncated)
+decimal_value_to_fixed!(c02_decimal_value_to_fixed_1, 1);
+
+//@ harness: c02_decimal_value_to_fixed_2
+//@   props: C02, C01
+//@   tier: quick
+//@   kind: complete
+//@   fn: ser::serializer::decimal::serialize (fixed(2))
+//@   domain: every sign x every 96-bit mantissa at scale 0
+//@   post: Ok iff the mantissa fits 2 bytes two's complement; then exactly those 2 bytes; otherwise Err
+decimal_value_to_fixed!(c02_decimal_value_to_fixed_2, 2);
+
+//@ harness: c02_decimal_value_to_fixed_0
+//@   props: C02, C01
+//@   tier: quick
+//@   kind: complete
+//@   fn: ser::serializer::decimal::serialize (fixed(0))
+//@   domain: every sign x every 96-bit mantissa at scale 0
+//@   post: Ok iff the number is zero (empty output); otherwise Err
+decimal_value_to_fixed!(c02_decimal_value_to_fixed_0, 0);
+
+//@ harness: c02_decimal_value_to_fixed_16
+//@   props: C02, C01
+//@   tier: quick
+//@   kind: complete
+//@   fn: ser::serializer::decimal::serialize (fixed(16))
+//@   domain: every sign x every 96-bit mantissa at scale 0
+//@   post: always Ok; 16 bytes sign-extended big-endian decoding to the mantissa
+decimal_value_to_fixed!(c02_decimal_value_to_fixed_16, 16);
+
+//@ harness: c02_decimal_value_to_fixed_18
+//@   props: C02, C01
+//@   tier: thorough
+//@   kind: complete
+//@   fn: ser::serializer::decimal::serialize (fixed(18): larger than the 16-byte mantissa buffer)
+//@   domain: every sign x every 96-bit mantissa at scale 0
+//@   post: always Ok; two sign-padding bytes followed by the 16-byte two's complement
+decimal_value_to_fixed!(c02_decimal_value_to_fixed_18, 18);
+
 //@ harness: c02_ser_cells_canary
 //@   props: C02, C01
 //@   tier: quick
